@@ -56,10 +56,14 @@ pub fn div_nx1(limbs: &mut [u64], divisor: u64) -> u64 {
     // Normalize and compute reciprocal
     let shift = divisor.leading_zeros();
     if shift == 0 {
+        #[cfg(feature = "recmo_uint_verif")]
+        crate::verif_hooks::hit(157);
         return div_nx1_normalized(limbs, divisor);
     }
     let divisor = divisor << shift;
     let reciprocal = reciprocal(divisor);
+    #[cfg(feature = "recmo_uint_verif")]
+    crate::verif_hooks::hit(155);
 
     let last = unsafe { limbs.get_unchecked(limbs.len() - 1) };
     let mut remainder = last >> (64 - shift);
@@ -124,10 +128,14 @@ pub fn div_nx2(limbs: &mut [u64], divisor: u128) -> u128 {
     // Normalize and compute reciprocal
     let shift = divisor.high().leading_zeros();
     if shift == 0 {
+        #[cfg(feature = "recmo_uint_verif")]
+        crate::verif_hooks::hit(158);
         return div_nx2_normalized(limbs, divisor);
     }
     let divisor = divisor << shift;
     let reciprocal = reciprocal_2(divisor);
+    #[cfg(feature = "recmo_uint_verif")]
+    crate::verif_hooks::hit(156);
 
     let last = unsafe { limbs.get_unchecked(limbs.len() - 1) };
     let mut remainder: u128 = u128::from(last >> (64 - shift));
@@ -186,11 +194,15 @@ pub fn div_2x1_mg10(u: u128, d: u64, v: u64) -> (u64, u64) {
     let q1 = ((q >> 64) as u64).wrapping_add(1);
     let r = (u as u64).wrapping_sub(q1.wrapping_mul(d));
     let (q1, r) = if r > q0 {
+        #[cfg(feature = "recmo_uint_verif")]
+        crate::verif_hooks::hit(140);
         (q1.wrapping_sub(1), r.wrapping_add(d))
     } else {
         (q1, r)
     };
     let (q1, r) = if unlikely(r >= d) {
+        #[cfg(feature = "recmo_uint_verif")]
+        crate::verif_hooks::hit(141);
         (q1.wrapping_add(1), r.wrapping_sub(d))
     } else {
         (q1, r)
@@ -265,10 +277,14 @@ pub fn div_3x2_mg10(u21: u128, u0: u64, d: u128, v: u64) -> (u64, u128) {
     let mut r = u128::join(r1, u0).wrapping_sub(t).wrapping_sub(d);
     let mut q1 = q.high().wrapping_add(1);
     if r.high() >= q.low() {
+        #[cfg(feature = "recmo_uint_verif")]
+        crate::verif_hooks::hit(142);
         q1 = q1.wrapping_sub(1);
         r = r.wrapping_add(d);
     }
     if unlikely(r >= d) {
+        #[cfg(feature = "recmo_uint_verif")]
+        crate::verif_hooks::hit(143);
         q1 = q1.wrapping_add(1);
         r = r.wrapping_sub(d);
     }
